@@ -503,6 +503,65 @@ func (ck *Check) classification(rule string, want map[int]string) {
 	ck.floor(rule, "classifier append sites", count, len(want))
 }
 
+// classificationComplete: every uncordoned node without either escalator taint lands in the
+// classifier's untainted list (outside dry mode): relative to the loop body,
+// ¬dry ∧ ¬cordoned(n) ∧ ¬tainted(n) ∧ ¬forced(n) ⇒ (some append to result 0 is reached). A
+// classifier that withholds such a node from the taint candidates lets a younger node be tainted
+// while an older one stays untainted and unattempted.
+func (ck *Check) classificationComplete(rule string) {
+	a := ck.A
+	fn := a.Filter
+	ctx := ck.P.NewCtx(fn)
+	gl, gr, err := ck.dryAtoms(fn)
+	if err != nil {
+		ck.undecided(rule, "classifier/dry", "", funcID(fn), "dry-mode atoms", err.Error())
+		return
+	}
+	dry := Or(Atom(gl), Atom(gr))
+	have := FFalse
+	var n *Term
+	var loop *Loop
+	seen := map[*ssa.Call]bool{}
+	for _, b := range fn.Blocks {
+		r, ok := b.Instrs[len(b.Instrs)-1].(*ssa.Return)
+		if !ok || len(r.Results) == 0 {
+			continue
+		}
+		for _, ap := range sliceProv(r.Results[0]).Appends {
+			if seen[ap.Call] || ap.Spread != nil || len(ap.Elems) != 1 {
+				continue
+			}
+			seen[ap.Call] = true
+			t := ctx.Term(ap.Elems[0])
+			if !isElemOf(t, func(x *Term) bool { return x.Kind == "param" }) {
+				continue
+			}
+			if n == nil {
+				n = t
+				loop = innermostLoop(fn, ap.Call.Block())
+			} else if n.Key() != t.Key() {
+				ck.undecided(rule, "classifier/untainted-complete", ck.P.instrPos(ap.Call), funcID(fn), "the untainted list is filled from one loop over the listed nodes", "several loops")
+				return
+			}
+			have = Or(have, ctx.PC(ap.Call))
+		}
+	}
+	if n == nil || loop == nil {
+		ck.fail(rule, "classifier/untainted-complete", ck.P.position(fn.Pos()), funcID(fn), "the classifier appends listed nodes to its untainted list", "no such append", "")
+		return
+	}
+	cordoned := Atom(ck.nodeField(n, "Spec", "Unschedulable"))
+	tainted := boolResultFormula(ctx, a.GetTaint, []*Term{n}, 1)
+	forced := boolResultFormula(ctx, a.GetForceTaint, []*Term{n}, 1)
+	pre := And(loop.bodyPC(ctx), Not(dry), Not(cordoned), Not(tainted), Not(forced))
+	okv, why, err2 := Entails(pre, have)
+	if err2 != nil {
+		ck.undecided(rule, "classifier/untainted-complete", ck.P.position(fn.Pos()), funcID(fn), "¬dry ∧ ¬cordoned(n) ∧ ¬tainted(n) ∧ ¬forced(n) ⇒ n is appended to the untainted list", err2.Error())
+		return
+	}
+	ck.cond(okv, rule, "classifier/untainted-complete", ck.P.position(fn.Pos()), funcID(fn), "¬dry ∧ ¬cordoned(n) ∧ ¬tainted(n) ∧ ¬forced(n) ⇒ n is appended to the untainted list", have.String(), "an untainted node is withheld from the taint candidates (a younger node can be tainted while it is neither tainted nor attempted): "+why)
+}
+
 // nodeField builds n.<f1>.<f2> over the v1.Node struct types.
 func (ck *Check) nodeField(n *Term, names ...string) *Term {
 	t := n
@@ -1061,6 +1120,9 @@ func checkC10(ck *Check) {
 	// R7 the only removals that bypass the guard are those of nodes carrying the force-removal taint:
 	// the list the force reaper works on holds nothing else (the classifier's guard, decided as C01.R5)
 	ck.classification("C10.R7", map[int]string{2: "force"})
+	// R8 protection is an annotation on the node object, and tainting is a write of that object: the
+	// taint writers change nothing but Spec.Taints of the freshly fetched node (decided as C15.R1 / R2 / R7)
+	ck.shareRules(checkC15, "C10.R8", "C15.R1", "C15.R2", "C15.R7")
 }
 
 // protectedPredicate: safeFromDeletion's result 1 is true exactly on returns inside a map
